@@ -33,7 +33,45 @@ def gen_self_subst(src, opts):
     return ("sub", t, ((kname, t),))
 
 
+def gen_capture_probe(src, opts):
+    """(binder over j of a lazy body)(k = value whose free input is named j): the value's j
+    must not be captured, whether or not the body mentions j."""
+    g = G(src, Opts(max_depth=2, max_names=3, reals=True))
+    avail = set(g.sizes)
+    names = g.perm(sorted(avail))
+    j, kname = names[0], names[1]
+    sj, sk = g.sizes[j], g.sizes[kname]
+    rname = sorted(g.real_shapes)[0]
+    rvar = ("var", rname, ("real", g.real_shapes[rname]))
+    if g.real_shapes[rname] != ():
+        rvar = ("unp", "sum", (None, False), rvar)
+    mention_j = g.chance(0.5)
+    tk = ("ten", ((kname, sk),) + (((j, sj),) if mention_j else ()), (), "real", g.real_data(sk * (sj if mention_j else 1)), False)
+    body = ("bin", g.pick(["add", "mul"]), rvar, tk) if g.chance(0.8) else tk
+    if g.chance(0.3):
+        body = ("bin", "add", body, g.expr(("real", ()), 1, avail - {j}))
+    binder = g.pick(["red", "red", "lam", "integrate"])
+    if binder == "red":
+        bound = ("red", g.pick(["add", "logaddexp", "max", "mul"]), body, ((j, sj),))
+    elif binder == "lam":
+        bound = ("unp", "sum", (None, False), ("lam", j, sj, body))
+    else:
+        lm = ("ten", ((j, sj),), (), "real", g.real_data(sj), False)
+        bound = ("integrate", lm, body, ((j, sj),))
+    value = ("ten", ((j, sj),), (), sk, g.int_data(sk, sj), False)
+    subs = [(kname, value)]
+    if g.chance(0.5):
+        subs.append((rname, ("pynum", 0.5)) if g.real_shapes[rname] == () else (rname, ("ten", (), g.real_shapes[rname], "real", g.real_data(g.numel(g.real_shapes[rname])), False)))
+    return ("sub", bound, tuple(subs))
+
+
 def cases(opts):
+    base = exprs(opts, None)
+    probe = st.integers(0, 2**40).map(lambda s: gen_capture_probe(SeedSource(s), opts))
+    return st.one_of(_cases(opts), _cases(opts), _cases(opts), probe)
+
+
+def _cases(opts):
     base = exprs(opts, None)
 
     @st.composite
